@@ -18,6 +18,9 @@ type scanner struct {
 	negative bool
 }
 
+// maxExponent is the largest supported absolute value of a number's exponent.
+const maxExponent = 1 << 20
+
 func newScanner() *scanner {
 	s := &scanner{}
 	s.stateFn = s.stateOnSearchStart
@@ -72,6 +75,11 @@ func (s *scanner) setExp(value bytes.Bytes) error {
 	exp, err := value[s.expBegin:].ParseInt()
 	if err != nil {
 		return err
+	}
+	// The exponent is expanded into explicit zeros: a short numeral such as
+	// 1e999999999999 must not be able to ask for terabytes of them.
+	if exp > maxExponent || exp < -maxExponent {
+		return fmt.Errorf("Incorrect number value %q: the exponent is too large", value.String())
 	}
 	// example with negative exp: 12.34E-1 = 1.234; exp = -1; intLen = 2 + (-1) = 1
 	// example with positive exp: 12.34E+1 = 123.4; exp =  1; intLen = 2 + 1    = 3
